@@ -92,6 +92,9 @@ def stages(tier, seed, witness_search=False):
     for i in range(nhist):
         scripts.append(history(rng, PLATFORMS[i % 5], rng.randrange(1, 41 if tier != "quick" else 25), big))
     scripts += [cross_mode_clone_script(rng, PLATFORMS[i % 5]) for i in range(40 if tier == "quick" else 600)]
+    # several derive-key hashers in a row on one thread with contexts that share a long prefix (a Hasher must not depend on earlier ones)
+    from . import c01
+    scripts += c01.context_sequence_scripts(rng)
     # large first updates through the multithreaded entry point, then more input (state after update_rayon must be update's)
     for n in ([200 * 1024, 1000000, 133 * 1024 + 1] if tier == "quick" else [200 * 1024, 1000000, 133 * 1024 + 1, 3 * 1024 * 1024 + 5, 2 ** 21]):
         for plat in ["avx512", "portable"]:
